@@ -32,11 +32,27 @@ class _DF:
             _DF.pos += 1
             if k >= len(_DF.calls) or _DF.calls[k][0] != name:
                 raise AssertionError('arg-reuse replay out of step at call %d (%s)' % (k, name))
+            if not _plain_data((a, kw)):
+                return real(*a, **kw)       # one-shot arguments (iterators, processor objects) are never re-used
             return real(*_DF.calls[k][1], **_DF.calls[k][2])
         for attr in dir(real):      # class-level constants such as load.INFER_STRINGS
             if attr.isupper():
                 setattr(ctor, attr, getattr(real, attr))
         return ctor
+
+
+def _plain_data(o, depth=0):
+    import types
+    if o is None or isinstance(o, (bool, int, float, str, bytes, decimal.Decimal, datetime.date, datetime.time,
+                                   datetime.timedelta, types.FunctionType, types.BuiltinFunctionType, type)):
+        return True
+    if depth > 6:
+        return False
+    if isinstance(o, (list, tuple, set, frozenset)):
+        return all(_plain_data(x, depth + 1) for x in o)
+    if isinstance(o, dict):
+        return all(_plain_data(k, depth + 1) and _plain_data(v, depth + 1) for k, v in o.items())
+    return False
 
 
 _df = _DF()
